@@ -79,13 +79,13 @@ def _judge(cfg, name, args, variant):
     if len(got) != len(want) or any(not isinstance(g, int) for g in got):
         return ("wrong-value", "%s%r on %s returned %r (types %s), Python gives %r" % (name, tuple(vals), ts, got, gts, want)), prog
     for g, w in zip(got, want):
-        if abs(w) >= m.p // 2 and name != "pow":     # pow's reference value is already the field element
+        if abs(w) >= m.p // 2 and not (name == "pow" and ts[1] in "IB"):     # secret-exponent pow: the reference is already the field element
             continue
         if (g - w) % m.p:
             return ("wrong-value" + ex, "%s%r on %s returned %r, Python gives %r" % (name, tuple(vals), ts, got, want)), prog
         # the reported value is the Python integer itself, not just something congruent to it; only the secret-exponent
         # power (and the shifts built on it) are documented to reduce modulo the field order
-        if g != w and not (name == "pow" or (name in ("lshift", "rshift") and ts[1] in "IB")):
+        if g != w and not (name in ("pow", "lshift", "rshift") and ts[1] in "IB"):
             return ("wrong-value" + ex, "%s%r on %s returned %r, Python gives %r (congruent modulo the field order, but not the integer)" % (
                 name, tuple(vals), ts, got, want)), prog
     return None, prog
